@@ -114,6 +114,17 @@ def run(ctx):
 
     if ctx.replay:
         meta = json.load(open(os.path.join(ctx.replay, "meta.json")))
+        if meta.get("mode") == "stub":
+            exe_s = vlib.build_harness(pid, "asan", ["fsm_harness.c"], objs, wraps=["sleep", "lrtr_get_monotonic_time"], exe="h_fsm")
+            tcs = TraceChecker(ctx, verdict, wd, "RtrSocketTrace", "RtrSocketTrace.cfg", "OK_STUB", timeout=P["tlc_timeout"])
+            sc = os.path.join(ctx.replay, os.path.basename(meta["script"]))
+            tr = os.path.join(wd, "traceS.ndjson")
+            rc_s, out_s = vlib.sh([exe_s, sc, tr], env=dict(vlib.SAN_ENV, VH_ALARM="300"), timeout=600)
+            if rc_s != 0:
+                verdict.deviation("C15:socket-layer-%s" % ("silent-after-start" if rc_s == 3 else "crash"), "exit %d: %s" % (rc_s, out_s[-600:]), ctx.replay)
+            else:
+                tcs.validate(tr, "S", meta, [sc])
+            return verdict.finish()
         harness(os.path.join(ctx.replay, os.path.basename(meta["script"])), "replay", meta)
         return verdict.finish()
 
@@ -133,6 +144,27 @@ def run(ctx):
     evs = (vlib.read_ndjson(trA) if trA else []) + (vlib.read_ndjson(trB) if trB else [])
     rel = [e for e in evs if e["e"] not in ("pre", "end")]
     nontriv = [e for e in rel if e.get("reports") or e.get("started") or e.get("stopped") or e.get("rc") not in (None, "ok")]
+    # ---- S: the assumptions RtrMgr.tla and the rtr_start / rtr_stop stubs make about the socket layer, checked on the real
+    # rtr_start / rtr_stop with a real FSM thread: a stopped socket is RTR_CLOSED with its bookkeeping reset, and starting it
+    # again makes it open its transport (a socket that stays silent is reported as a hang by the harness)
+    import fsmgen
+    exe_s = vlib.build_harness(pid, "asan", ["fsm_harness.c"], objs, wraps=["sleep", "lrtr_get_monotonic_time"], exe="h_fsm")
+    tcs = TraceChecker(ctx, verdict, wd, "RtrSocketTrace", "RtrSocketTrace.cfg", "OK_STUB", timeout=P["tlc_timeout"])
+    scriptS = os.path.join(wd, "scriptS.ndjson")
+    nS = fsmgen.write_stopstart_script(scriptS, seed, 12 if tier == "quick" else 120)
+    traceS = os.path.join(wd, "traceS.ndjson")
+    rc_s, out_s = vlib.sh([exe_s, scriptS, traceS], env=dict(vlib.SAN_ENV, VH_ALARM="300"), timeout=600)
+    metaS = {"mode": "stub", "script": scriptS, "seed": seed}
+    if rc_s != 0:
+        mpath = os.path.join(wd, "meta.json")
+        json.dump(metaS, open(mpath, "w"))
+        rp = vlib.save_replay(pid, "S-crash-seed%d" % seed, [mpath, scriptS])
+        verdict.deviation("C15:socket-layer-%s" % ("silent-after-start" if rc_s == 3 else "crash"),
+                          "a socket stopped and started again (as the manager does on every fail-over) ended with exit %d: %s" % (rc_s, out_s[-600:]), rp)
+    else:
+        tcs.validate(traceS, "S", metaS, [scriptS])
+    tc.traces += tcs.traces
+    tc.events += tcs.events
     from tracecheck import extra_conformance
     extras = [extra_conformance(ctx, wd, "RtrMgrTrace", "RtrMgrTrace.cfg", "OK_EXT", t,
                                 "rtr_mgr_conf_in_sync() = some group has every socket synchronised (RtrMgr!InSync), after every step")
